@@ -1,3 +1,4 @@
+import HranoModel.Lemmas.Template
 import HranoModel.Lemmas.Tree
 import HranoModel.Lemmas.Collapse
 import HranoModel.Lemmas.Chain
@@ -135,5 +136,28 @@ example : PrefixFree (demo.map pathOf) := by
 /-- the side condition is needed: with a food logged at a category that has a single child the collapsed row
     shows the category's amount, not the leaf's (the property excludes such logs) -/
 example : chainOKList (Tree.build [⟨[97], 1⟩, ⟨[97, 47, 98], 2⟩]) = false := by decide +kernel
+
+/-! ### the byte layout follows the formats read from the source on every run (`tools/facts`, `Model/Template.lean`) -/
+
+/-- Every row of the balance tree is `fmt.Fprintf` of the format the source has now — each of the three calls of `balance_reporter.go` and the one of `balance_reporter_collapsed.go` — applied to the total, the indentation and the label. -/
+theorem balance_rows_follow_source (i : Nat) (h : i < 4) (t : Q) (level : Nat) (label : Bytes) :
+    Tree.row t level label
+      = Tmpl.sprintfA (Facts.balanceFormats.getD i []) [.q t, .s (List.replicate level [32, 32]).flatten, .s label] := by
+  rw [Tmpl.row_b i h]; simp [Tree.row, List.append_assoc]
+
+/-- `balance -s X`: the rule and the total row are the two formats of `balance_reporter_single.go`. -/
+theorem balance_single_footer_follows_source (cfg : RCfg) (days : List LogDay) (db : Book) :
+    renderBalanceSingle cfg days db =
+      (let es := balanceSingleElements db cfg.singleElement days
+       let t := Tree.build es
+       (if cfg.collapse then Tree.printCollapsedChildren 0 t else Tree.printChildren cfg.collapseLast 0 t)
+       ++ Tmpl.sprintfA (Facts.balanceSingleFormats.getD 0 []) [.s (Report.dashes 11)]
+       ++ Tmpl.sprintfA (Facts.balanceSingleFormats.getD 1 []) [.q (es.foldl (fun s e => s + e.value) 0), .s cfg.singleElement]) := by
+  simp only [renderBalanceSingle, Tmpl.row_bs0, Tmpl.row_bs1, List.append_assoc]
+
+example : Tmpl.signature (Facts.balanceFormats.getD 3 []) = some [true, false, false]
+    ∧ Tmpl.signature (Facts.balanceSingleFormats.getD 1 []) = some [true, false] := by decide +kernel
+example : Tmpl.sprintfA (Facts.balanceFormats.getD 1 []) [.q (-5/2), .s [32, 32], .s [97]]
+    = Bytes.ofString "     -2.50 |   a\n" := by decide +kernel
 
 end Hrano.C03
